@@ -300,12 +300,38 @@ static void one_execution(Trace& T, Rng& g, int N, int steps, bool is2d)
 			if(d != o)
 			{
 				intent("copy");
-				if(g.coin())
+				int variant = (int)g.range(0, 2);
+				if(variant == 0)
 					objs[d] = objs[o];
 				else
 				{
 					Obj c(objs[o]);
+					if(variant == 2)
+					{	// c is built from the table itself (an original, not a copy) and brought to the state of objs[o] ...
+						c.I = Interpolation(t.x, t.y);
+						for(auto& op : objs[o].ops)
+						{
+							if(op.set)
+								c.I.Set_Prefactor(op.f);
+							else
+								c.I.Multiply(op.f);
+						}
+					}
 					objs[d] = c;
+					if(variant == 2)
+					{	// the object copied from then gets ANOTHER table of the same size (its storage is reused in place) and is destroyed:
+						// a copy is independent of what happens to its source afterwards
+						std::vector<double> x2 = t.x, y2 = t.y;
+						for(int i = 0; i < N; i++)
+						{
+							x2[i] = t.x[i] + (i + 1 < N ? 0.5 * (t.x[i + 1] - t.x[i]) : 0.5 * (t.x[i] - t.x[i - 1]));
+							y2[i] = -3.0 * t.y[N - 1 - i] + 1.0;
+						}
+						Interpolation other(x2, y2);
+						c.I = other;
+						volatile double touch = c.I.Interpolate(x2[N / 2]);
+						(void)touch;
+					}
 				}
 				pos[d] = pos[o];
 				T.emit({{"e", "Copy"}, {"src", o + 1}, {"dst", d + 1}});
